@@ -108,7 +108,7 @@ type sent struct {
 
 func sendMsg(ctx context.Context, ch *tds.Channel, pipe *vrt.Pipe, m Msg, size int, fault string) sent {
 	s := sent{typ: m.Type, size: size}
-	before := len(pipe.Writes())
+	before := len(pipe.Packets())
 	flushCtx := ctx
 	switch fault {
 	case "ctx", "ctx-send":
@@ -116,7 +116,7 @@ func sendMsg(ctx context.Context, ch *tds.Channel, pipe *vrt.Pipe, m Msg, size i
 		cancel()
 		flushCtx = c2
 	case "write":
-		pipe.FailWrite(before, 0, vrt.ErrReset)
+		pipe.FailWrite(len(pipe.Writes()), 0, vrt.ErrReset)
 	}
 	ch.CurrentHeaderType = tds.PacketHeaderType(m.Type)
 	for i, n := range m.Lens {
@@ -151,7 +151,10 @@ func sendMsg(ctx context.Context, ch *tds.Channel, pipe *vrt.Pipe, m Msg, size i
 			break
 		}
 	}
-	s.writes = append([][]byte{}, pipe.Writes()[before:]...)
+	s.writes = append([][]byte{}, pipe.Packets()[before:]...)
+	if len(pipe.Partial()) > 0 {
+		s.writes = append(s.writes, append([]byte{}, pipe.Partial()...)) // stray bytes that complete no packet
+	}
 	return s
 }
 
@@ -216,7 +219,7 @@ func execute(c Case) (res result, x *vrt.Exec) {
 				res.setupErr = "NewChannel(logical): " + err.Error()
 				return
 			}
-			res.setupWrites = len(pipe.Writes())
+			res.setupWrites = len(pipe.Packets())
 		}
 		_ = ch0
 		if c.Size1 != 512 {
@@ -285,13 +288,15 @@ func check(c Case, res result, x *vrt.Exec) {
 			h.Violate("C01|nothing-sent|"+cls, fmt.Sprintf("%+v: %s: no packet reached the transport", c, which), c)
 			return
 		}
-		for i, w := range s.writes {
-			pk, err := hx.ParseStream(w)
-			if err != nil || len(pk) != 1 {
-				h.Violate("C01|write-not-one-packet|"+cls, fmt.Sprintf("%+v: %s: transport write %d (%d bytes) is not exactly one packet: %v", c, which, i, len(w), err), c)
-				return
-			}
-			p := pk[0]
+		// the statement is about the BYTES reaching the transport: how they are spread over write calls
+		// is the library's business (one call per packet, or several packets per call)
+		pks, perr := hx.ParseStream(hx.Concat(s.writes...))
+		if perr != nil {
+			h.Violate("C01|not-a-packet-sequence|"+cls, fmt.Sprintf("%+v: %s: the %d bytes written do not parse as consecutive packets: %v", c, which, len(hx.Concat(s.writes...)), perr), c)
+			return
+		}
+		npk = len(pks)
+		for i, p := range pks {
 			last := i == npk-1
 			if p.Length > s.size {
 				h.Violate("C01|packet-too-long|"+cls, fmt.Sprintf("%+v: %s: packet %d has length %d > packet size", c, which, i, p.Length), c)
